@@ -340,3 +340,137 @@ class CurvedOps:
             ra, rb = self.regions()
             sig["crossing_parameters"] = crossing_kind(ra, rb)
         return sig
+
+
+class CurvedIntersect:
+    """JordanCurve.intersection on concrete curves with quadratic pieces (C14).  The crossing search is a Newton iteration,
+    so the curves are concrete and the library runs unstubbed; the solver decides *completeness* over all parameter pairs:
+    for every pair of pieces, is there (u, v) in [d, 1-d]^2 with A_i(u) = B_j(v) that is farther than d from every
+    reported (i, j, u*, v*)?  (QF_NRA, two variables, degree <= 2.)  Soundness of each reported tuple (ranges, the two
+    points agree to 1e-6) and the swap law are evaluated exactly."""
+
+    nfree = 2
+    plain = True
+    ob_timeout_ms = 60000
+    replay_timeout = 600
+    path_timeout = 600
+    DELTA = F(1, 1000)
+
+    def __init__(self, A, B, shift=("0", "0"), scaleB=1, num="float"):
+        self.A, self.B, self.shift, self.scaleB, self.num = A, B, [str(s) for s in shift], scaleB, num
+        self.names = ["u", "v"]
+
+    def domain(self, xs):
+        return []
+
+    def nums(self):
+        return numbers(self.A, ("0", "0"), self.num), numbers(self.B, self.shift, self.num, self.scaleB)
+
+    def curves(self):
+        from shapepy import JordanCurve
+
+        na, nb = self.nums()
+        return JordanCurve.from_ctrlpoints([list(pc) for pc in na]), JordanCurve.from_ctrlpoints([list(pc) for pc in nb])
+
+    def run(self, xs):
+        JA, JB = self.curves()
+        res = JA.intersection(JB)
+        JA2, JB2 = self.curves()
+        rev = JB2.intersection(JA2)
+        JA3, JB3 = self.curves()
+        amp = JA3 & JB3
+        tup = lambda r: [[int(a), int(b), None if u is None else C.exact(u), None if v is None else C.exact(v)] for a, b, u, v in r]
+        return {"inter": tup(res), "swapped": tup(rev), "and": tup(amp)}
+
+    def pieces(self):
+        na, nb = self.nums()
+        ex = lambda rows: [[(C.exact(x), C.exact(y)) for x, y in pc] for pc in rows]
+        return ex(na), ex(nb)
+
+    @staticmethod
+    def point(pc, t):
+        from oracles import bezier as BZ
+
+        return BZ.bernstein([q[0] for q in pc], t), BZ.bernstein([q[1] for q in pc], t)
+
+    def desc(self):
+        return f"{self.A} x {self.B}*{self.scaleB}+({self.shift[0]}, {self.shift[1]}) [{self.num}]"
+
+    def sound(self, out):
+        """exact evaluation of every reported tuple: indices and parameters in range, the two points agree to 1e-6; the
+        swapped call reports the swapped tuples (parameters to 1e-6)"""
+        pa, pb = self.pieces()
+        bad = []
+        for key in ("inter", "and"):
+            for a, b, u, v in out[key]:
+                if not (0 <= a < len(pa) and 0 <= b < len(pb)) or u is None or v is None or not (0 <= u <= 1 and 0 <= v <= 1):
+                    bad.append(f"{key}: tuple ({a}, {b}, {u}, {v}) out of range")
+                    continue
+                p, q = self.point(pa[a], u), self.point(pb[b], v)
+                if abs(p[0] - q[0]) > R.TOL or abs(p[1] - q[1]) > R.TOL:
+                    bad.append(f"{key}: A_{a}({float(u):.9f}) and B_{b}({float(v):.9f}) are {float(abs(p[0]-q[0])+abs(p[1]-q[1])):.2e} apart")
+        sw = [(b, a, v, u) for a, b, u, v in out["swapped"]]
+        for a, b, u, v in out["inter"]:
+            if u is not None and not any(a == a2 and b == b2 and abs(u - u2) <= R.TOL and abs(v - v2) <= R.TOL for a2, b2, u2, v2 in sw if u2 is not None):
+                bad.append(f"tuple ({a}, {b}, {float(u):.9f}, {float(v):.9f}) has no counterpart in the swapped call")
+        if len(sw) != len(out["inter"]):
+            bad.append(f"swapped call reports {len(sw)} tuples, direct call {len(out['inter'])}")
+        return bad
+
+    def oblige(self, tr, out):
+        u, v = Sym.var(0, 0), Sym.var(1, 0)
+        pa, pb = self.pieces()
+        d = self.DELTA
+        obs = [("a reported crossing is wrong (range, distance of the two points, swap law)", z3.BoolVal(bool(self.sound(out))), {})]
+        for key in ("inter", "and"):
+            missed = []
+            for i, A in enumerate(pa):
+                for j, B in enumerate(pb):
+                    # quick exact rejection: control boxes apart
+                    bx = lambda q: (min(p[0] for p in q), max(p[0] for p in q), min(p[1] for p in q), max(p[1] for p in q))
+                    a, b = bx(A), bx(B)
+                    if a[1] < b[0] or b[1] < a[0] or a[3] < b[2] or b[3] < a[2]:
+                        continue
+                    P, Q = self.point(A, u), self.point(B, v)
+                    far = [R.zor(u - us > d, us - u > d, v - vs > d, vs - v > d) for a_, b_, us, vs in out[key] if a_ == i and b_ == j and us is not None]
+                    missed.append(R.zand(u >= d, u <= 1 - d, v >= d, v <= 1 - d, P[0] - Q[0] == 0, P[1] - Q[1] == 0, *far))
+            obs.append((f"a crossing of two pieces is not reported [{key}]", z3.Or(missed) if missed else z3.BoolVal(False), {"pairs": len(missed)}))
+        return obs
+
+    def on_raise(self, exc, func, line):
+        return "curved intersection raised " + exc
+
+    def raise_formula(self, tr):
+        return z3.BoolVal(True)
+
+    def confirm(self, name, xs, outcome, exc):
+        if name.startswith("curved intersection raised"):
+            return exc is not None, f"{self.desc()}: {exc}"
+        if outcome is None:
+            return False, f"plain run raised {exc}"
+        if name.startswith("a reported crossing is wrong"):
+            bad = self.sound(outcome)
+            return bool(bad), f"{self.desc()}: " + "; ".join(bad[:3])
+        key = "inter" if "[inter]" in name else "and"
+        # the witness (u, v) is algebraic in general: re-decide the existence exactly on this run's tuples
+        from symx import core
+
+        tr = core.Tracer(["u", "v"])
+        core.set_tracer(tr)
+        tr.begin([F(0), F(0)])
+        obs = dict((n, f) for n, f, _ in self.oblige(tr, outcome))
+        s = z3.Solver()
+        s.set("timeout", self.ob_timeout_ms)
+        s.add(obs[name])
+        r = str(s.check())
+        txt = ""
+        if r == "sat":
+            m = s.model()
+            txt = f" e.g. (u, v) ~ ({core.model_value(m, tr.zvars[0]).limit_denominator(10**6)}, {core.model_value(m, tr.zvars[1]).limit_denominator(10**6)})"
+        return r == "sat", f"{self.desc()}: reported {[(a, b, float(u), float(v)) for a, b, u, v in outcome[key] if u is not None]}; a crossing away from all of them exists: {r}{txt}"
+
+    def signature(self, name, xs, outcome, exc):
+        sig = {"name": name.split(" raised")[0] if "raised" in name else name.split(" [")[0], "exact_rational_operands": self.num == "frac"}
+        if exc is not None:
+            sig["exc"] = exc["exc"]
+        return sig
